@@ -472,8 +472,9 @@ def check(run):
                         elif ev is not None:
                             if abs(got - ev) > 4 * ulp(t, ev):
                                 nulp = abs(got - ev) / ulp(t, ev)
-                                viol("value-off-by-le64ulp" if nulp <= 64 else "value", "get_value<%s>(%s) = %s differs from the exact value by %.3g ulp" % (
-                                    t, mk, gv, float(nulp)), t)
+                                nulp_s = "%.3g" % float(nulp) if nulp < 10 ** 300 else "about 10^%d" % (len(str(int(nulp))) - 1)
+                                viol("value-off-by-le64ulp" if nulp <= 64 else "value", "get_value<%s>(%s) = %s differs from the exact value by %s ulp" % (
+                                    t, mk, gv, nulp_s), t)
         # get_value<T> as a program: every predicted-reject pair; predicted-accept pairs are already instantiated by the
         # dump above (c11::Gv) whenever the library says "representable", so quick re-probes only a 1/9 slice of them plus
         # every pair on which the dump disagreed with the model (kept in batches of their own)
